@@ -171,7 +171,7 @@ def with_history_invariants(prop, tier, res):
     """E2: the state invariant of `prop` re-checked after every undo / redo of every call
     sequence of the C02 menus (deep undo/redo interleavings that the BFS probe does not reach)"""
     q = tier == "quick"
-    menus = [(M1, 4 if q else 6), (M1B, 4 if q else 5), (M2, 3 if q else 5), (M_DEEP, 7 if q else 9)]
+    menus = [(M1, 4 if q else 6), (M1B, 4 if q else 5), (M2, 3 if q else 5), (M_DEEP, 7 if q else 8)]
     return merge_results(res, run_e2(prop, tier, "C02", menus, inv_props=(prop,), time_budget=budget(tier, 60, 900)))
 
 
@@ -433,7 +433,7 @@ M3S = dict(name="M3-full-seg-chain", world="seg-2d-core", seed="chain", full_alp
 def check_c02(tier):
     q = tier == "quick"
     menus = [(M1, 5 if q else 7), (M1B, 5 if q else 6), (M2, 4 if q else 6), (M3, 2 if q else 3), (M3S, 2),
-             (M_DEEP, 7 if q else 10)]
+             (M_DEEP, 7 if q else 9)]
     return run_e2("C02", tier, "C02", menus, time_budget=budget(tier, 150, 3000),
                   inv_props=("C03", "C04", "C05", "C06"))
 
